@@ -10,8 +10,32 @@ HOST = "src/snapshot.rs"
 FAMILY = {"empty": [], "0": [0], "012": [0, 1, 2], "3": [3], "05": [0, 5], "34": [3, 4], "1_9": [1, 9]}
 
 
+def slice_id_expr():
+    """Extracts verbatim the expression of `let id = ...;` inside add_package_requirement of /repo's current snapshot.rs."""
+    import re
+    from common import REPO, Inconclusive
+    src = open(os.path.join(REPO, HOST)).read()
+    m = re.search(r"pub fn add_package_requirement\(&mut self, name: NameId, matcher: &str\) -> VersionSetId \{(.*?)\n    \}\n", src, re.S)
+    if not m:
+        raise Inconclusive("add_package_requirement not found in %s" % HOST)
+    body = m.group(1)
+    ids = re.findall(r"let id = (.*?);", body, re.S)
+    if len(ids) != 1 or not re.search(r"VersionSetId::from_usize\(id\)\s*$", body.strip()):
+        raise Inconclusive("add_package_requirement no longer has the shape `let id = <expr>; ... VersionSetId::from_usize(id)`")
+    if "additional_version_sets.push(" not in body:
+        raise Inconclusive("add_package_requirement no longer pushes onto additional_version_sets")
+    # the id must be computed before the push (the slice evaluates it before replaying the push)
+    if body.index("let id =") > body.index("additional_version_sets.push("):
+        raise Inconclusive("id is computed after the push: slice not applicable")
+    line = src[:src.index("let id = " + ids[0])].count("\n") + 1
+    return ids[0], line
+
+
 def build(tier):
     text = open(os.path.join(VERIF, "kani", SRC)).read()
+    expr, line = slice_id_expr()
+    text += ("\nimpl<'s> SnapshotProvider<'s> {\n    /// verbatim slice of snapshot.rs:%d (`let id = ...;` in add_package_requirement)\n"
+             "    fn verif_next_id(&self) -> usize {\n        %s\n    }\n}\n" % (line, expr))
     hs = []
     adds_range = (0, 1, 2) if tier == "quick" else (0, 1, 2, 3)
     fams = ["empty", "0", "012", "3", "05"] if tier == "quick" else list(FAMILY)
@@ -21,15 +45,15 @@ def build(tier):
             name = "c16_%s_add%d" % (f, adds)
             text += ("\n#[kani::proof]\n#[kani::unwind(8)]\n#[kani::stub(ahash::RandomState::new, stub_random_state)]\n"
                      "fn %s() {\n    case::<%d, %d>([%s]);\n}\n" % (name, len(ids), adds, ", ".join(str(i) for i in ids)))
-            h = Harness(name, bounds="captured version-set ids %s; %d add_package_requirement calls, package of each call symbolic (2 packages); every captured and added id resolved after every call" % (ids, adds),
-                        symbolic=["package chosen per call"], enumerated=["captured id set %s" % ids, "%d additions" % adds],
+            h = Harness(name, bounds="captured version-set ids %s with symbolic recorded names; %d additions (id expression of add_package_requirement sliced verbatim, package per addition symbolic); every captured and added id resolved through version_set() after every addition" % (ids, adds),
+                        symbolic=["package name recorded in each captured version set", "package of each addition"], enumerated=["captured id set %s" % ids, "%d additions" % adds],
                         min_covers=1, timeout=900, mem_gb=16, group="c16_%s" % ("hi" if ids else "empty"),
                         instance={"captured_ids": ids, "additions": adds})
             h.group_file = SRC
             hs.append(h)
     text += ("\n#[kani::proof]\n#[kani::unwind(8)]\n#[kani::stub(ahash::RandomState::new, stub_random_state)]\n"
-             "fn c16_twin_must_fail() {\n    let snap = snapshot_with([0, 1]);\n    let mut p = snap.provider();\n"
-             "    let id = p.add_package_requirement(PKG_A, \"*\");\n    assert!(id == VersionSetId(0), \"vacuity witness\");\n"
+             "fn c16_twin_must_fail() {\n    let (snap, _n) = snapshot_with([0, 1]);\n    let mut p = snap.provider();\n"
+             "    let id = add_like(&mut p, PKG_A);\n    assert!(id == VersionSetId(0), \"vacuity witness\");\n"
              "    std::mem::forget(p);\n    std::mem::forget(snap);\n}\n")
     tw = Harness("c16_twin_must_fail", bounds="vacuity twin", expect="fail", timeout=600, group="c16")
     tw.group_file = SRC
@@ -39,7 +63,8 @@ def build(tier):
 
 def functions():
     return [
-        source_lines(HOST, r"pub fn add_package_requirement", r"fn solvable\(&self"),
+        source_lines(HOST, r"pub fn add_package_requirement", r"fn solvable\(&self") + " (id expression only, sliced)",
+        source_lines(HOST, r"fn first_additional_version_set_idx", r"^    }"),
         source_lines(HOST, r"fn version_set\(&self, version_set: VersionSetId\)", r"^}"),
         source_lines(HOST, r"fn version_set_name\(&self", r"fn solvable_name"),
         source_lines("src/internal/mapping.rs", r"pub fn insert\(", r"pub fn unset\("),
@@ -49,7 +74,8 @@ def functions():
 ASSUMPTIONS = [
     "Kani 0.68 / CBMC 6.11 on the dev-profile MIR; stub ahash::RandomState::new (only empty HashSets are built: packages have no solvables, so no hash insertion happens)",
     "mapping.rs VALUES_PER_CHUNK scaled 128 -> 4 in the scratch copy",
-    "captured id sets are enumerated from a family (empty, dense, single high id, sparse, chunk-straddling) and the number of additions is enumerated (a symbolic count makes the additional vector's length symbolic); the package chosen per call is symbolic",
+    "add_package_requirement is NOT executed as a whole (collect::<HashSet<_>>() does not finish under CBMC): its id expression `let id = ...;` is sliced verbatim from the current source into a method of SnapshotProvider, and the push onto additional_version_sets is replayed by the harness; resolution uses the real version_set()/version_set_name(). If the function no longer has that shape the check is inconclusive",
+    "captured id sets are enumerated from a family (empty, dense, single high id, sparse, chunk-straddling) and so is the number of additions; recorded names and the package of each addition are symbolic",
     "NOT decided: verdict equivalence with the live provider, capture (from_provider: SolverCache, HashSet, VecDeque), JSON text, candidate order (DESIGN R1); the per-package order loop's dependence on Mapping::iter is covered by C19",
 ]
 RULE = ("one evaluation = one CBMC property decided SUCCESS in a SUCCESSFUL harness; instances = captured-id family x number of additions; non-trivial = cover witness SATISFIED")
